@@ -421,6 +421,42 @@ fn set_types() -> Vec<String> {
     out
 }
 
+fn gen_files(texts: &str) -> Option<String> {
+    use asn1rs_model::asn::MultiModuleResolver;
+    use asn1rs_model::generate::protobuf::ProtobufDefGenerator;
+    use asn1rs_model::protobuf::ToProtobufModel;
+    let mut resolver = MultiModuleResolver::default();
+    for (i, h) in texts.split(',').enumerate() {
+        let text = crate::parse::text_of(h)?;
+        match crate::parse::parse_text(&text) {
+            Ok(m) => resolver.push(m),
+            Err(e) => return Some(format!("err parse:{}:{}", i, crate::parse::parse_err_class(&e))),
+        }
+    }
+    let models = match resolver.try_resolve_all() {
+        Ok(m) => m,
+        Err(e) => return Some(format!("err resolve:{}", crate::parse::resolve_err_class(&e))),
+    };
+    let scope = models.iter().collect::<Vec<_>>();
+    let mut out = String::from("ok");
+    for model in &models {
+        let pm = match catch_unwind(AssertUnwindSafe(|| model.to_rust_with_scope(&scope[..]).to_protobuf())) {
+            Ok(pm) => pm,
+            Err(_) => return Some("err convert-panic".to_string()),
+        };
+        match ProtobufDefGenerator::generate_file(&pm) {
+            Ok((file, content)) => {
+                out.push(' ');
+                out.push_str(&hex(file.as_bytes()));
+                out.push(':');
+                out.push_str(&hex(content.as_bytes()));
+            }
+            Err(_) => return Some("err generate".to_string()),
+        }
+    }
+    Some(out)
+}
+
 pub fn handle(args: &[&str]) -> Option<String> {
     limit_memory();
     match args {
@@ -441,6 +477,9 @@ pub fn handle(args: &[&str]) -> Option<String> {
             None => "err no-schema".to_string(),
         }),
         ["files"] => Some(format!("ok {}", ZOO_PROTO_FILES.join(","))),
+        // `gen <hex text>[,<hex text>..]`: the .proto files the real generator writes for these modules
+        // (parse, resolve all, to_rust_with_scope, to_protobuf, ProtobufDefGenerator::generate_file)
+        ["gen", texts] => Some(gen_files(texts)?),
         ["schema", name] => Some(match schema_of(name) {
             Some((p, m, t)) => format!("ok {} {} {}", p, m, hex(t.as_bytes())),
             None => "err no-schema".to_string(),
